@@ -595,7 +595,10 @@ def compute_lpl_field(variant, laa_val: np.ndarray) -> np.ndarray:
     # When the PL value is missing in all samples, pl_val has shape (sample_count, 1).
     # In that case, we need to broadcast the PL value.
     if pl_val.shape[1] < n.shape[1]:
-        pl_val = np.broadcast_to(pl_val, n.shape)
+        # n holds indexes into the full PL vector, which can exceed the number
+        # of local genotypes: broadcast widely enough for every lookup
+        width = max(n.shape[1], int(n.max()) + 1)
+        pl_val = np.broadcast_to(pl_val, (pl_val.shape[0], width))
     row_index = np.arange(pl_val.shape[0]).reshape(-1, 1)
     lpl_val = pl_val[row_index, n]
     lpl_val[b == constants.INT_FILL] = constants.INT_FILL
